@@ -50,6 +50,7 @@ type Targeted struct {
 	Nth    int           `json:"nth"`
 	Mode   FaultMode     `json:"mode"`
 	Delay  time.Duration `json:"delay,omitempty"`
+	Repeat bool          `json:"repeat,omitempty"` // the Nth call and every later one
 	seen   int
 	Fired  bool `json:"-"`
 }
@@ -81,14 +82,14 @@ type Call struct {
 }
 
 type Net struct {
-	mu        sync.Mutex
-	cfg       Config
-	eps       map[string]*endpoint
-	cut       map[[2]string]bool
-	targeted  []*Targeted
-	Stats     map[string]int64
-	quiet     bool // no random faults (after the fault phase)
-	OnReply   func(c Call)
+	mu            sync.Mutex
+	cfg           Config
+	eps           map[string]*endpoint
+	cut           map[[2]string]bool
+	targeted      []*Targeted
+	Stats         map[string]int64
+	quiet         bool // no random faults (after the fault phase)
+	OnReply       func(c Call)
 	HandlerPanics int
 }
 
@@ -158,11 +159,11 @@ func (n *Net) decide(from, to, method string) (mode FaultMode, delay time.Durati
 	n.stat("rpc/" + method)
 	if !n.quiet {
 		for _, t := range n.targeted {
-			if t.Fired || t.Method != method || (t.From != "" && t.From != from) || (t.To != "" && t.To != to) {
+			if (t.Fired && !t.Repeat) || t.Method != method || (t.From != "" && t.From != from) || (t.To != "" && t.To != to) {
 				continue
 			}
 			t.seen++
-			if t.seen == t.Nth {
+			if t.seen == t.Nth || (t.Repeat && t.seen > t.Nth) {
 				t.Fired = true
 				n.stat("targeted/" + t.Mode.String())
 				return t.Mode, t.Delay, lat1, lat2
